@@ -23,6 +23,7 @@ import ast
 from ..astutil import norm, dotted, cmp_op_str, const_value
 from ..loader import AnalysisError
 from .c07 import mentions, enclosing_context, _cmp_parts
+from ..inline import expander
 
 LIN_INIT = "cobyqa.problem:LinearConstraints.__init__"
 NLC_CALL = "cobyqa.problem:NonlinearConstraints.__call__"
@@ -84,10 +85,11 @@ def run(ctx, rep):
 
 def r171(ctx, rep):
     f = ctx.func(LIN_INIT)
+    inl = expander(ctx, f, stop=("is_equality",))
     stores = {}
     for node in ast.walk(f.node):
         if isinstance(node, ast.Assign) and len(node.targets) == 1 and isinstance(node.targets[0], ast.Attribute) and node.targets[0].attr in ("_a_ub", "_b_ub", "_a_eq", "_b_eq"):
-            rec = stack_recipe(node.value)
+            rec = stack_recipe(inl.expand(node.value, node))
             if rec is not None:
                 stores.setdefault(node.targets[0].attr, []).append((node, rec))
     for a, b, kind in (("_a_ub", "_b_ub", "inequality"), ("_a_eq", "_b_eq", "equality")):
@@ -133,7 +135,7 @@ def r171(ctx, rep):
         for node, lbl in ((na, a), (nb, b)):
             ctxs = [c for c in enclosing_context(node, f.node) if c[0] in ("if-true", "if-false")]
             for k, test, _ in ctxs:
-                t = norm(test)
+                t = norm(inl.expand(test, test))
                 ok_guard = False
                 if kind == "inequality":
                     ok_guard = (k == "if-true" and (t.replace(" ", "") in ("notnp.all(is_equality)", "np.any(~is_equality)")))
@@ -322,14 +324,42 @@ def r172(ctx, rep):
 
 def r173(ctx, rep):
     f = ctx.func(BND_INIT)
+    inl = expander(ctx, f)
     found = {}
+
+    def role(arr):
+        """'lo' / 'hi' of the array that is NaN-repaired: by the field it is or
+        flows into, or by the user attribute it is copied from."""
+        t = norm(arr)
+        if t.endswith("xl"):
+            return "lo"
+        if t.endswith("xu"):
+            return "hi"
+        if isinstance(arr, ast.Name):
+            for node in ast.walk(f.node):
+                if isinstance(node, ast.Assign) and isinstance(node.value, ast.Name) and node.value.id == arr.id:
+                    for tg in node.targets:
+                        if isinstance(tg, ast.Attribute) and tg.attr in ("_xl", "xl"):
+                            return "lo"
+                        if isinstance(tg, ast.Attribute) and tg.attr in ("_xu", "xu"):
+                            return "hi"
+            for node in ast.walk(f.node):
+                if isinstance(node, ast.Assign) and any(isinstance(tg, ast.Name) and tg.id == arr.id for tg in node.targets):
+                    if mentions(node.value, "lb") and not mentions(node.value, "ub"):
+                        return "lo"
+                    if mentions(node.value, "ub") and not mentions(node.value, "lb"):
+                        return "hi"
+        return None
+
     for node in ast.walk(f.node):
         if isinstance(node, ast.Assign) and isinstance(node.targets[0], ast.Subscript) and _short(node.targets[0].slice) == "isnan":
-            arr = norm(node.targets[0].value)
-            arg = norm(node.targets[0].slice.args[0]) if node.targets[0].slice.args else ""
+            arr = node.targets[0].value
+            arg = node.targets[0].slice.args[0] if node.targets[0].slice.args else None
             val = norm(node.value).replace(" ", "")
-            which = "lo" if arr.endswith("xl") else ("hi" if arr.endswith("xu") else None)
-            found[which] = (arr, arg, val, node)
+            which = role(arr)
+            if which is None:
+                raise AnalysisError(f"{f.local}:{node.lineno} cannot tell whether `{norm(arr)}` is the lower or the upper bound array")
+            found[which] = (norm(arr), norm(arg) if arg is not None else "", val, node)
     for which, want in (("lo", ("-np.inf", "-numpy.inf")), ("hi", ("np.inf", "numpy.inf"))):
         desc = f"{f.local}: NaN {'lower' if which == 'lo' else 'upper'} bound -> {want[0]}"
         if which in found and found[which][2] in want and found[which][0] == found[which][1]:
@@ -351,49 +381,56 @@ def r174(ctx, rep):
     if len(sites) < 2:
         raise AnalysisError("equality detection sites not found (floor 2)")
     for f, node in sites:
-        v = node.value
+        inl = expander(ctx, f)
+        v = inl.expand(node.value, node)
         p = _cmp_parts(v)
-        good = False
-        if p:
-            l, op, r = p
-            lt = norm(l).replace(" ", "")
-            if op == "<=" and _short(l) in ("abs", "absolute") and isinstance(l.args[0], ast.BinOp) and isinstance(l.args[0].op, ast.Sub):
-                a, b = norm(l.args[0].left), norm(l.args[0].right)
-                tol = r
-                if isinstance(r, ast.Name):
-                    for n2 in ast.walk(f.node):
-                        if isinstance(n2, ast.Assign) and any(isinstance(t, ast.Name) and t.id == r.id for t in n2.targets):
-                            tol = n2.value
-                if _short(tol) == "get_arrays_tol" and {norm(x) for x in tol.args} == {a, b}:
-                    good = True
         desc = f"{f.local}:{node.lineno} is_equality = {norm(v)[:70]}"
+        if not p or not (_short(p[0]) in ("abs", "absolute") or _short(p[2]) in ("abs", "absolute")):
+            raise AnalysisError(f"{desc}: shape of the equality detection not understood")
+        l, op, r = p
+        if _short(r) in ("abs", "absolute"):
+            from ..astutil import FLIP
+            l, op, r = r, FLIP[op], l
+        good = False
+        if op == "<=" and isinstance(l.args[0], ast.BinOp) and isinstance(l.args[0].op, ast.Sub):
+            a, b = norm(l.args[0].left), norm(l.args[0].right)
+            if _short(r) == "get_arrays_tol" and {norm(x) for x in r.args} == {a, b}:
+                good = True
         if good:
             rep.ok("R17.4", desc)
         else:
             rep.bad("R17.4", desc)
             rep.finding("R17.4", f, norm(node)[:120], node.lineno, "equality detection must be abs(ub - lb) <= get_arrays_tol(lb, ub) (same rule for linear and nonlinear constraints)")
+    # the normalised constraint objects get (lower, upper) limits derived from the
+    # user's (lb, ub) in this order
     g = ctx.func("cobyqa.main:_get_constraints")
+    inl = expander(ctx, g)
     n = 0
     for node in ast.walk(g.node):
         if isinstance(node, ast.Call) and _short(node) in ("LinearConstraint", "NonlinearConstraint"):
-            for a in node.args:
-                if isinstance(a, ast.Starred) and _short(a.value) == "broadcast_arrays":
-                    n += 1
-                    names = [norm(x) for x in a.value.args]
-                    if names == ["lb", "ub"]:
-                        rep.ok("R17.4", f"{g.local}:{node.lineno} limits broadcast as (lb, ub)")
+            args = []
+            for a in node.args[1:]:
+                if isinstance(a, ast.Starred):
+                    inner = inl.expand(a.value, node)
+                    if _short(inner) == "broadcast_arrays":
+                        args += list(inner.args)
+                    elif isinstance(inner, (ast.Tuple, ast.List)):
+                        args += list(inner.elts)
                     else:
-                        rep.bad("R17.4", "broadcast order")
-                        rep.finding("R17.4", g, norm(node)[:100], node.lineno, f"the limits are handed over as {names}: lower and upper limits swapped")
-    if n < 2:
-        raise AnalysisError("_get_constraints: broadcast of (lb, ub) not found")
-    # lb / ub of the normalised constraint come from the user's lb / ub
-    for node in ast.walk(g.node):
-        if isinstance(node, ast.Assign) and len(node.targets) == 1 and isinstance(node.targets[0], ast.Name) and node.targets[0].id in ("lb", "ub"):
-            v = node.value
-            if isinstance(v, ast.Call) and v.args and isinstance(v.args[0], ast.Attribute):
-                if v.args[0].attr == node.targets[0].id:
-                    rep.ok("R17.4", f"{g.local}:{node.lineno} {node.targets[0].id} <- constraint.{v.args[0].attr}")
+                        raise AnalysisError(f"{g.local}:{node.lineno} starred limits `{norm(a)[:40]}` not understood")
                 else:
-                    rep.bad("R17.4", "limit source")
-                    rep.finding("R17.4", g, norm(node)[:100], node.lineno, f"`{node.targets[0].id}` is read from constraint.{v.args[0].attr}")
+                    args.append(inl.expand(a, node))
+            if len(args) != 2:
+                continue
+            lo, hi = args
+            if isinstance(lo, ast.Constant) or isinstance(hi, ast.Constant) or not (mentions(lo, "lb", "ub") or mentions(hi, "lb", "ub")):
+                continue  # dict constraints: constant limits
+            n += 1
+            desc = f"{g.local}:{node.lineno} {_short(node)}(.., {norm(lo)[:30]}, {norm(hi)[:30]})"
+            if mentions(lo, "lb") and not mentions(lo, "ub") and mentions(hi, "ub") and not mentions(hi, "lb"):
+                rep.ok("R17.4", desc + " limits in (lb, ub) order")
+            else:
+                rep.bad("R17.4", desc)
+                rep.finding("R17.4", g, norm(node)[:100], node.lineno, "the lower limit of the normalised constraint is not derived from the user's lb and the upper one from ub: limits swapped or mixed")
+    if n < 2:
+        raise AnalysisError("_get_constraints: construction of the normalised LinearConstraint/NonlinearConstraint with (lb, ub) not found")
